@@ -34,7 +34,7 @@ func init() {
 		level: "exploration",
 		rule: "instrumented user function (execution counter, max-concurrency gauge, end stamps) wrapped by every flavour of Once (Worker/Operation/Producer/Processor/Handler/Future, adt.Once, Mnemonize, ft.Once/OnceDo), " +
 			"Limit(n) (calls below/at/above n) and Lock/WithLock, called by 1-32 goroutines released from a barrier under speed profiles and GOMAXPROCS 1/2/4/16, incl. two-deep stackings; Retry(n) against scripted outcome sequences " +
-			"(ok/err/skip/EOF/abort/canceled); call-log order of Join/PreHook/PostHook/Chain; waiters of Launch/Signal/Background/StartGroup/Processor.Background/Producer.Background/Producer.Launch checked by happens-before stamps; a quarter of the Once cases let the single execution end in a panic that its caller recovers (count stays 1); StartGroup waiters get an impatient second waiter whose own context ends early. " +
+			"(ok/err/skip/EOF/abort/canceled); call-log order of Join/PreHook/PostHook/Chain; waiters of Launch/Signal/Background/StartGroup/Processor.Background/Producer.Background/Producer.Launch checked by happens-before stamps; a quarter of the Once cases let the single execution end in a panic that its caller recovers (count stays 1); StartGroup waiters get an impatient second waiter whose own context ends early; a third of the Once cases give every second caller a context that has already ended while the single execution takes a moment. " +
 			"distinct_nontrivial = distinct (wrapper, caller class, calls/caller, n, speed, GOMAXPROCS, error pattern) with >= 2 callers, plus distinct retry scripts, order cases and background configurations",
 		assumptions:   append([]string{"Retry and terminating errors: only 'no attempt follows the terminating error' is asserted (DESIGN 7h)", "when the single execution of a Once wrapper panics only the execution count and the no-early-return clause are asserted"}, commonAssumptions...),
 		floorEvals:    1000,
@@ -50,7 +50,7 @@ func init() {
 		rule: "15 fan-out/fan-in constructs (Split+w consumers, ProcessParallel, ParallelForEach, itertool.Process/Worker, Map, ParallelBuffer, Buffer, MergeIterators with unequal/empty sources, GenerateParallel, concurrent ReadOne, " +
 			"HF.WorkerPool/OperationPool, two nested combinations) x n in {0,1,2,3,w-1,w,w+1,2w+1,2w+2,random<=300} x w in {1,2,3,4,8,16,33} x speed profiles for source/worker/consumer x GOMAXPROCS 1/2/4/16; unique ids; " +
 			"oracle: multiset(invocations)=multiset(output)=input, exact sequence for Buffer and single workers, nil error; no abort, cancel or early Close. " +
-			"FirstAdvance: 24 small fresh pipelines per case (Map, Split, ParallelBuffer, Buffer, GenerateParallel, MergeIterators) whose first advance comes from 2-8 spin-aligned goroutines, the last item slow. " +
+			"FirstAdvance: 24 small fresh pipelines per case (Map, Split, ParallelBuffer, Buffer, GenerateParallel, MergeIterators) whose first advance comes from 2-8 spin-aligned goroutines, the last item slow; Map and GenerateParallel are also entered through itertool.Map / itertool.Generate. " +
 			"distinct_nontrivial = distinct (construct, n-class relative to w, w, profile triple) with n>=2 and w>=2",
 		assumptions:   append([]string{"a pipeline that does not finish is decided at quiescence (census), otherwise inconclusive"}, commonAssumptions...),
 		floorEvals:    1500,
@@ -65,7 +65,7 @@ func init() {
 		level: "fault_enumeration",
 		rule: "the classification table {ContinueOnError} x {ContinueOnPanic} x {IncludeContextExpirationErrors} x ExcludedErrors{none, the injected error, unrelated} x failure kind {plain, %w-wrapped, typed, panic(error), panic(string), panic(int), " +
 			"panic(io.EOF), panic(wrapped skip), ErrIteratorSkip, io.EOF, ErrCurrentOpAbort, context.Canceled} is enumerated COMPLETELY for each of 5 constructs (ProcessParallel, ParallelForEach, itertool.Worker, Map, GenerateParallel) in both tiers; " +
-			"collector {default, erc.Collector, custom pair}, workers {1,2,4,8}, n (50*w+.. or small), failure position(s) {first, last, middle, random, pair}, exclusion list assembled in one call / two calls / Set(conf)+Add / with unset (nil) entries, worker speed and GOMAXPROCS are drawn per cell (thorough: 120 draws per cell). " +
+			"collector {default, erc.Collector, custom pair}, workers {1,2,4,8}, n (50*w+.. or small), failure position(s) {first, last, middle, random, pair}, exclusion list assembled in one call / two calls / Set(conf)+Add / with unset (nil) entries, a quarter of the reportable cells re-run with one more item that gives up with a wrapper of ErrCurrentOpAbort (reporting clauses only), worker speed and GOMAXPROCS are drawn per cell (thorough: 120 draws per cell). " +
 			"Oracle: every failure that happened is found by errors.Is (ErrRecoveredPanic for panics), unreportable kinds never appear, nil iff nothing reportable, exactly-once processing and complete output in continue modes, " +
 			"failing goroutine handles no further item and <= 2w+1 items start after the first failure in abort modes (an exceedance is confirmed by re-execution). distinct_nontrivial = distinct (construct, flags, excluded, kind) cells decided",
 		assumptions: append([]string{"ErrCurrentOpAbort returned by the user function: only no-panic and termination are asserted (DESIGN 7c)",
@@ -85,7 +85,7 @@ func init() {
 			"4 two-level nestings} x n (0..59) x cut point k (every k for n<=8, classes {0,1,mid,n-1,n} otherwise) x stop mode {exhaust, Close (twice), cancel, Close then cancel, two concurrent Close calls, Close / cancel while the consumer is parked " +
 			"on a never-ending source; Split outputs closed in a seeded order} x workers {1,2,3,4,8} x GOMAXPROCS; the process is verified clean before the scenario; after the stop it is brought to quiescence (two identical goroutine censuses, " +
 			"no timers) and no goroutine with a frame in, or created by, the module may remain; blocked consumers must have returned; exhaust must end with io.EOF. Batch modes (one census per batch): 150 early-stopped pipelines; shared-readers (250 trials: 2-4 consumers of one buffered output whose source stalls ignoring its context, then their context is cancelled: all return); " +
-			"failing-function (120 trials: GenerateParallel / Map / ProcessParallel with 2-64 workers whose function fails at once: the stage ends, nothing is left). " +
+			"failing-function (120 trials: GenerateParallel / Map / ProcessParallel with 2-64 workers whose function fails at once: the stage ends, nothing is left); the n-ary constructs (MergeIterators, Chain, MergeSlices, MergeSliceIterators) also with no inputs at all. " +
 			"distinct_nontrivial = distinct (construct, stop mode, cut class, workers) in which >= 1 module goroutine was alive when the stop was issued",
 		assumptions: append([]string{"every Split output is closed (any order) or the context is cancelled; an abandoned un-closed output is not a documented stop (DESIGN 7b)",
 			"scenarios use no timers; a watchdog expiry without quiescence is inconclusive"}, commonAssumptions...),
